@@ -144,6 +144,23 @@ def pairs(in_loop=False):
         yield ("seq", a, b)
 
 
+def loop_sequences():
+    """Two loops one after the other at DIFFERENT block depths, every counter kind, both orders: the counters and compiler-made temporaries
+    (end bound, step) that one loop leaves behind meet the names the next loop makes for itself one block deeper or shallower."""
+    def frm(ck, incl=False, step=None, body=("plain",)):
+        return ("from", D_BOUNDS, incl, step, ck, body)
+    firsts = ([frm(ck, incl, step) for ck in COUNTERS for incl in (False, True) for step in (None, 2)]
+              + [("while", D_N, ("plain",)), frm("collide", body=("break",)), frm("fresh", body=("continue",))])
+    seconds = [frm(ck, incl) for ck in COUNTERS for incl in (False, True)] + [("while", D_N, ("plain",))]
+    wraps = [lambda x: x, lambda x: ("if", 0, x), lambda x: ("ifelse", 1, ("plain",), x), lambda x: ("elif", 1, 0, ("plain",), x, ("plain",)),
+             lambda x: ("while", D_N, x), lambda x: frm("anon", body=x), lambda x: ("if", 0, ("if", 0, x))]
+    for a in firsts:
+        for w in wraps:
+            for b in seconds:
+                yield ("seq", a, w(b))
+                yield ("seq", w(a), b)
+
+
 # ---------------------------------------------------------------------------------------------
 # shape -> AST
 
